@@ -4,6 +4,7 @@ import MysticVerif.Model.Dsl
 import MysticVerif.Model.Combinators
 import MysticVerif.Model.Solver
 import MysticVerif.Model.NelderMead
+import MysticVerif.Model.PowellS
 
 namespace MysticVerif.SolverDrv
 open MysticVerif MysticVerif.Dsl MysticVerif.Solver
@@ -252,10 +253,75 @@ def handleCtl (args : List Val) : String := Id.run do
     | _ => return "bad-op"
   return s!"ok ops=({" ".intercalate outs.toList})"
 
+
+/-! ### Powell on the decorated objective:
+`pw (cost ..) (pen ..) (cons ..) (box ..) (x0 (..)) (record b) (steps n) (ls ((pre (..) ..) (y ..) (post (..) ..) (xi ..)) ..)`
+the k-th recorded line search is the oracle's answer to the k-th request, whatever `(p, xi)` the model asks for:
+the requests are printed (`reqs`) and compared with the recorded ones by the harness. -/
+
+open MysticVerif.PowellS in
+def pwCfgF : PwCfg Float Float :=
+  { diff := fun a b => a - b
+    gain := fun fx2 fval delta => !(fx2.isInf && fval.isInf) && decide (fx2 - fval > delta)
+    tneg := fun fx fx2 fval delta =>
+      let t := 2.0 * (fx + fx2 - 2.0 * fval)
+      let temp := fx - fval - delta
+      let t := t * (temp * temp)
+      let temp := fx - fx2
+      let t := t - delta * temp * temp
+      decide (t < 0.0)
+    zeroE := 0.0
+    two := 2.0 }
+
+/-- order-sensitive checksum of the evaluation log (NaN canonicalised) -/
+def logSum (l : List (V × Float)) : UInt64 :=
+  let bits := fun (f : Float) => if f != f then (0x7ff8000000000000 : UInt64) else f.toBits
+  let mix := fun (h : UInt64) (b : UInt64) => h * 6364136223846793005 + b + 1442695040888963407
+  l.foldl (fun h p => mix (p.1.foldl (fun h v => mix h (bits v)) h) (bits p.2)) 0
+
+open MysticVerif.PowellS in
+def parseLs : Val → Option (LsRec Float)
+  | .list args => do
+    let pre ← (kw? args "pre").bind Val.asList? |>.bind (·.mapM Val.asFloats?)
+    let y ← (kw? args "y").bind Val.asFloats?
+    let post ← (kw? args "post").bind Val.asList? |>.bind (·.mapM Val.asFloats?)
+    let xi ← (kw? args "xi").bind Val.asFloats?
+    pure { pre, y, post, xi }
+  | _ => none
+
+open MysticVerif.PowellS in
+def showPw (s : Pw Float Float) : String :=
+  s!"(x {pFs s.x} fval {pF s.fval} nlog {s.log.length} nstep {s.stepLog.length} nls {s.nls} bigind {s.bigind} delta {pF s.delta})"
+
+open MysticVerif.PowellS in
+def handlePw (args : List Val) : String := Id.run do
+  let some su := parseSetup args | return "bad-op"
+  let some x0 := (kw? args "x0").bind Val.asFloats? | return "bad-op"
+  let some steps := (kw? args "steps").bind Val.asNat? | return "bad-op"
+  let record := ((kw? args "record").bind Val.asBool?).getD true
+  let some lsl := (kw? args "ls").bind Val.asList? |>.bind (·.mapM parseLs) | return "bad-op"
+  let lsArr := lsl.toArray
+  let o := su.obj
+  let clip0 : V → V := match su.box with | some b => b.clip0 | none => id
+  let n := x0.length
+  let eye : List V := (List.range n).map fun i => (List.range n).map fun j => if i = j then 1.0 else 0.0
+  -- an exhausted oracle answers with the start point (never happens when the model follows the real run)
+  let ls : Nat → V → V → LsRec Float := fun k p _ => lsArr.getD k { pre := [], y := p, post := [], xi := p.map fun _ => 0.0 }
+  let mut outs : Array String := #[]
+  let mut s : Pw Float Float := default
+  for k in [0:steps] do
+    if k = 0 then s := gen0 o pwCfgF record (clip0 x0) eye
+    else if k = 1 then s := gen1 o pwCfgF ls s
+    else s := genN o pwCfgF ls s
+    outs := outs.push (showPw s)
+  let reqs := "(" ++ " ".intercalate (s.reqs.map fun r => "(" ++ pFs r.1 ++ " " ++ pFs r.2 ++ ")") ++ ")"
+  return s!"ok steps=({" ".intercalate outs.toList}) reqs={reqs} direc={pFss s.direc} logsum={(logSum s.log).toNat} steplog={pPairs s.stepLog} hist={pFs s.hist}"
+
 def handle : Handler
   | .sym "de" :: args => handleDE args
   | .sym "nm" :: args => handleNM args
   | .sym "ctl" :: args => handleCtl args
+  | .sym "pw" :: args => handlePw args
   | .sym "K" :: args => Id.run do            -- twin test of the constraints coupling
     let some su := parseSetup args | return "bad-op"
     let some x := (kw? args "x").bind Val.asFloats? | return "bad-op"
